@@ -170,8 +170,9 @@ OPTIONS_TOKENS = ['\\ofull', '\\onosp', '\\oonosp', '\\omark', '\\omarkb', '\\om
                   '_', 'a', ' ', '%', '\n\n', '*']
 
 
-def extdelta_db():
-    """database whose first category is auto-named, with an environment whose body extends the
+def extdelta_db(auto_first=True):
+    """database whose first category is auto-named (or, auto_first=False, named: extending then
+    creates a new category instead of merging), with an environment whose body extends the
     latex context (ParsingStateDeltaExtendLatexContextDb) by a macro taking an optional argument"""
     from pylatexenc.macrospec import (LatexContextDb, MacroSpec, EnvironmentSpec,
                                       ParsingStateDeltaExtendLatexContextDb)
@@ -184,7 +185,10 @@ def extdelta_db():
             extend_latex_context=dict(macros=[MacroSpec('entry', '{{'), MacroSpec('textbf', '')],
                                       environments=[], specials=[]))),
     ])
-    db.add_context_category(None, macros=[MacroSpec('auto', '[{')], prepend=True)
+    if auto_first:
+        db.add_context_category(None, macros=[MacroSpec('auto', '[{')], prepend=True)
+    else:
+        db.add_context_category('named-first', macros=[MacroSpec('auto', '[{')], prepend=True)
     db.set_unknown_macro_spec(MacroSpec(''))
     db.set_unknown_environment_spec(EnvironmentSpec(''))
     return db
@@ -197,6 +201,8 @@ def build(recipe):
         return extdelta_db()
     if recipe == 'options':
         return options_db()
+    if recipe == 'extdelta2':
+        return extdelta_db(auto_first=False)
     """recipe: 'default' | 'every' | 'every-nounknown' | 'every-strings' | 'extended'"""
     if recipe is None or recipe == 'default':
         return default_db()
